@@ -95,7 +95,7 @@ func (rn *runner) monitor(s *gi.Session, st *gi.Step) {
 		}
 		for ip, a := range after.Alloc {
 			if _, ok := st.StBefore[ip]; !ok {
-				bad("reload-invented-allocation", fmt.Sprintf("%s -> %v", gi.IPStr(ip), a))
+				bad("reload-resurrected-release", fmt.Sprintf("%s has no stored object but is allocated after the reload: %v", gi.IPStr(ip), a))
 			}
 		}
 		for _, p := range s.W.Pools {
@@ -124,7 +124,7 @@ func (rn *runner) history(length int) {
 	conf := gi.GenConf(e.Rng)
 	st := s.Do(gi.Op{Kind: "conf", Conf: conf, Plan: gi.NoPlan()})
 	rn.monitor(s, &st)
-	okAllocs, reloads := 0, 0
+	okAllocs, reloads, sinceSync := 0, 0, 0
 	for i := 1; i < length; i++ {
 		v := s.W.View()
 		var op gi.Op
@@ -153,8 +153,11 @@ func (rn *runner) history(length int) {
 					op.IP = ip
 				}
 			}
-		case x < 42:
+		case x < 38:
 			op = gi.Op{Kind: "deliver", Plan: gi.NoPlan()}
+		case x < 42:
+			// the informer catches up: its cache (which a reload must NOT rely on) shows the store again
+			op = gi.Op{Kind: "isync", Plan: gi.NoPlan()}
 		case x < 50 && len(v.Pend) > 0:
 			// aim an allocation at an address whose reservation event is still on its way
 			ev := v.Pend[e.Rng.Intn(len(v.Pend))]
@@ -199,6 +202,17 @@ func (rn *runner) history(length int) {
 		}
 		if st.Class == "ok" && op.Kind == "conf" {
 			reloads++
+			if sinceSync > 0 {
+				rn.R.Hit("reload:informer-cache-lags-own-writes")
+			} else {
+				rn.R.Hit("reload:informer-cache-current")
+			}
+		}
+		switch {
+		case op.Kind == "isync" || op.Kind == "restart" || st.Class == "crashed":
+			sinceSync = 0
+		case st.Class == "ok" && (op.IsAlloc() || op.Kind == "rel" || op.Kind == "rels" || op.Kind == "akey" || op.Kind == "resv" || op.Kind == "upd"):
+			sinceSync++
 		}
 		if e.Rng.Intn(6) == 0 {
 			s.Ask(gi.GenQuery(e.Rng, s.W.View()))
